@@ -453,9 +453,11 @@ class ChoiceLog(RecordingSource):
         return r
 
 
-def selection_traces(R, tier):
+def selection_traces(R, tier, part="all"):
+    """part = "tournament-sample": only plain tournaments (for the advisory pool conformance), no lexicase"""
     traces = []
     quick = tier == "quick"
+    sample = part == "tournament-sample"
     # tournament
     pops = [[3], [1, 2], [2, 2], [1, 2, 3], [3, 1, 2], [2, 3, 2]] + ([] if quick else [[1, 2, 3, 1], [4, 1, 3, 2]])
     for pi, vals in enumerate(pops):
@@ -471,6 +473,8 @@ def selection_traces(R, tier):
                         if pre and (tsize < 2 or len(vals) < 2):
                             continue
                         if reuse and target > 2:
+                            continue
+                        if sample and (pre or reuse):
                             continue
                         leaves = 0
 
@@ -538,6 +542,8 @@ def selection_traces(R, tier):
                                 leaves += 1
                         except Exhausted:
                             pass        # the decision tree of this configuration exceeds the cap: covered up to the cap
+    if sample:
+        return traces
     # lexicase
     lpops = [[[0, 0], [0, 0], [0, 1]], [[1, 2], [2, 1]], [[1, 1], [1, 2], [2, 1]], [[2, 2], [2, 2]], [[1, 2, 3], [3, 2, 1], [2, 2, 2]],
              # spreads that change as winners leave the pool (the epsilon band has to follow the remaining candidates)
